@@ -23,14 +23,25 @@ try:
         subprocess.run("git checkout -q -- . && git clean -fdq", cwd=wt, shell=True)
         if subprocess.run(["git", "apply", os.path.join(d, "patch.diff")], cwd=wt).returncode != 0:
             res[sid] = "PATCH-DOES-NOT-APPLY"; print(sid, res[sid], flush=True); continue
-        p = subprocess.run(["bin/check", pid], cwd=V, env=dict(os.environ, VERIF_REPO=wt, VERIF_SEED=seed), stdout=subprocess.PIPE, stderr=subprocess.STDOUT, text=True, errors="replace")
-        vio = [l for l in p.stdout.splitlines() if l.startswith("VIOLATION")]
-        conc = [l for l in vio if not l.rstrip().endswith("no-failing-input-found")]
-        kind = "CONCRETE" if conc else ("BROKEN-ONLY" if vio else "MISSED")
-        if p.returncode == 0:
-            kind = "MISSED"
-        res[sid] = kind
-        print(sid, kind, [l.split("replay=")[-1].split("/")[-1] for l in (conc or vio)][:4], flush=True)
+        # the checks recorded for this change (its own property's, plus another property's where the change belongs there)
+        try:
+            checks = list(json.load(open(os.path.join(d, "meta.json")))["checks"].keys())
+        except Exception:
+            checks = [pid]
+        best = "MISSED"
+        shown = []
+        for cid in checks:
+            p = subprocess.run(["bin/check", cid], cwd=V, env=dict(os.environ, VERIF_REPO=wt, VERIF_SEED=seed), stdout=subprocess.PIPE, stderr=subprocess.STDOUT, text=True, errors="replace")
+            vio = [l for l in p.stdout.splitlines() if l.startswith("VIOLATION")]
+            conc = [l for l in vio if not l.rstrip().endswith("no-failing-input-found")]
+            kind = "CONCRETE" if conc else ("BROKEN-ONLY" if vio else "MISSED")
+            if p.returncode == 0:
+                kind = "MISSED"
+            if kind == "CONCRETE" or (kind == "BROKEN-ONLY" and best == "MISSED"):
+                best = kind
+            shown += [cid + ":" + l.split("replay=")[-1].split("/")[-1] for l in (conc or vio)][:3]
+        res[sid] = best
+        print(sid, best, shown[:6], flush=True)
 finally:
     subprocess.run(["git", "-C", "/repo", "worktree", "remove", "--force", wt])
 json.dump(res, open(os.path.join(V, ".work", f"seedall_seed{seed}.json"), "w"), indent=1)
